@@ -129,7 +129,7 @@ def replay_spelling(rep):
 
 def run(rep):
     return generic.run_generic(
-        rep, [('sqlparse.sql.Token.__init__', 'body'), (CSL, 'opaque token'), (CSL, 'keyword spelling')] + tc.NAV_FUNCS[:4],
+        rep, [('sqlparse.sql.Token.__init__', 'body'), (CSL, 'opaque token'), (CSL, 'keyword spelling')] + tc.NAV_FUNCS[:4] + tc.JOINER_FUNCS[:1],
         structural=[replay_spelling, regex_separators, inspection_sites],
         assumptions=['alpha(value) = upper-cased value with inner whitespace collapsed (str.upper / str.split / str.join '
                      'uninterpreted, composed as in the code)',
